@@ -94,17 +94,19 @@ CLAIMS.update({
             "count, neither earlier nor later; plus the segment formulas, law divisors and their monotonicity, CPU time antitone in CPUs, flat beyond each law's bound, memory profile. "
             "Tie: thousands of single-container runs of the real code against the specification, exact on the binary-exact lattice, either-side only at flagged float boundaries on "
             "decimal tick rates; the (law, cpus 1..128) grid of the real scaling functions.", "Props/C05.lean, Proofs/Profile.lean; sqrt/log laws via integer sqrt and an enclosure table"),
-    "C08": ("PARTIAL. Lean theorems, for every world and every queue state: one round of priority / priority-pool asks no pool for more CPU or RAM than it has free, so the executor's "
-            "verify_valid_assignment accepts it (budget invariant through the three queue runs); the round's assignments are a chain of accepted Assignment constructions, hence no operator "
-            "occurs twice, every operator was PENDING/FAILED and positive resources are requested; priority's suspensions name only active suspendable containers, so verify_valid_suspend "
-            "accepts them; naive and overbook: C17/C18 theorems; the naive scheduler / starter template never raises in any well-formed world (`naive_round_never_raises`); EXECUTION NEVER GETS STUCK: on a "
-            "consistent container (head operator RUNNING once started, the rest ASSIGNED, every parent COMPLETED or earlier in the container) `Container.tick`, `kill` and `suspend` never raise, and phases 3-6 of "
-            "a pool tick (write-outs, ticks, both OOM-killer steps, collection) never raise on a consistent pool and keep it consistent; the WHOLE POOL TICK RAISES ONLY AT ITS GATES "
-            "(`pool_tick_raises_only_at_the_gates`: with assignments built by the checked constructor in dependency order and distinct suspension requests it either succeeds and stays ready, or refuses the commands "
-            "up front with noContainer/cannotSuspend/overCpu/overRam/opCount in a well-defined state; Proofs/Progress.lean, 1 300 lines). NOT proved: that the closed loop of rounds and executor ticks never raises over a whole run (it is false of the shipped code "
-            "in one mode: known finding D11). Tie: closed-loop lock-step of each real scheduler + real Executor against the model on generated configurations (tiny pools, coarse ticks, "
-            "zero-tick segments, both container modes, DAGs), run_simulator end-to-end incl. the `eudoxia init` template and short runs; `check_C08` on every implementation trace.",
-            "Props/C08.lean; the run-to-the-end clause is decided by the tie (differential + Lean-defined checker on traces), not by a theorem"),
+    "C08": ("PARTIAL (one clause for three of the five policies). Lean theorems: (1) EXECUTION NEVER GETS STUCK: on consistent containers (head operator RUNNING once started, the rest ASSIGNED, "
+            "every parent COMPLETED or earlier in the container) Container.tick / kill / suspend never raise; a whole pool tick and the whole Executor.run_one_tick raise ONLY AT THEIR GATES "
+            "(`executor_tick_raises_only_at_the_gates`: from a ready world, after any chain of accepted Assignment constructions in dependency order and with distinct suspension requests, the tick "
+            "either succeeds and leaves a ready world or refuses the commands up front - unknown pool, unknown/unsuspendable container, oversold CPU/RAM, wrong operator count - in a well-defined "
+            "state), and it succeeds when the gates pass; (2) WHOLE RUNS: the naive scheduler in closed loop with the executor never raises, for every sequence of arrival batches, with "
+            "single-operator containers (= the `eudoxia init` starter scheduler) and with multi-operator containers (the default), from any ready world with well-formed pipelines - by induction over "
+            "ticks, carrying the ownership/readiness invariants and 'a pipeline with an operator in a container has no operator waiting'; a concrete world (diamond DAG, two pools) meets every "
+            "hypothesis (non-vacuity, checked by the kernel); (3) per round of priority / priority-pool: no pool is asked for more CPU or RAM than it has free, assignments are a chain of accepted "
+            "constructions (no operator twice, all PENDING/FAILED before), priority's suspensions are accepted by verify_valid_suspend; overbook: C18. NOT proved: whole-run theorems for priority, "
+            "priority-pool and overbook (for priority-pool the statement is false in one mode: known finding D11); parameter validation and end-of-run aggregation of run_simulator are exercised, "
+            "not modelled. Tie: closed-loop lock-step of each real scheduler + real Executor against the model on generated configurations (tiny pools, coarse ticks, zero-tick segments, both container "
+            "modes, DAGs, fractional pool sizes), run_simulator end-to-end incl. the `eudoxia init` template and runs shorter than a tick; `check_C08` on every implementation trace.",
+            "Props/C08.lean; Proofs/Progress.lean, Live.lean, WorldLive.lean, NaiveSafe.lean, NaiveLoop.lean, NaiveMulti.lean, NaiveExample.lean (about 4 000 lines of proof)"),
     "C12": ("Lean theorems, for every world and queue state, per round of the priority scheduler: each queue run consumes a prefix of its FIFO queue and assigns in queue order; a lower "
             "queue is served only if the higher one was drained, and anything left waiting implies every pool is out of free CPU or RAM in the scheduler's accounting (strict priority + work "
             "conservation); the chosen pool is open and has the most free RAM; suspensions only while a query job is still waiting, at most one per waiting query job, only active non-query "
@@ -116,7 +118,8 @@ CLAIMS.update({
             "queued together as one job; a retry whose doubled request reaches half of the pool is never assigned; the scheduler's own assertion cannot be tripped by the Assignment "
             "constructor. Tie: closed-loop lock-step on two pools with mixed priorities and OOM retries; `check_C16` on every implementation trace.", "Props/C16.lean"),
     "C17": ("Lean theorems about the naive scheduler's round for every queue and world: at most one container per pool, sized to all free CPU and RAM of that pool; pools with nothing free are "
-            "skipped; the queue is served in order; work handed out belongs to a pipeline without failed operators and (single-operator mode) is one ready operator; no suspensions. "
+            "skipped; the queue is served in order; work handed out belongs to a pipeline without failed operators and (single-operator mode) is one ready operator; no suspensions; "
+            "in multi-operator mode everything put into one container is in dependency order; and the closed loop naive + executor never raises over whole runs in either mode (C08 theorems). "
             "Tie: closed-loop lock-step; `check_C17` on every implementation trace.", "Props/C17.lean"),
     "C18": ("Lean theorems about the overbook scheduler's round, for every queue and world: every container gets exactly one operator, one CPU and a memory limit equal to its pool's "
             "whole RAM, on a pool that still had a free CPU in the scheduler's snapshot (the snapshot never goes negative: CPU-bound); the operator's pipeline has fewer than three failed "
